@@ -815,6 +815,30 @@ def run_fixed(ctx):
             ctx.oracle_fail("an offender on line 2 between two notes: bytes of 'c d' and one [ERROR](2) entry naming it expected (%s)" % kind,
                             lines[2 * i], "%s | %s" % (g[0][-60:], "\n".join(log)[:300]),
                             "%s | [ERROR](2) %s \"%s\" near ..." % (gc[0][-60:], "Syntax Error" if word else "Unknown Character:", ch), input_text=src)
+    # a digit that STARTS A LINE after a command that takes a length is not part of that length (only '^' continues a length over
+    # a line break): it is an unknown character like any other, reported on its own line, and the music is that of the clean text
+    lines, meta = [], []
+    for prev in ["c", "c4", "r", "r2", "l4 c", "l8", "'ce'", "c4.", "c,50", "e-", "n60,4", "[2 c"]:
+        for dg in "0123456789":
+            for sep in ["\n", "\n\n  ", "\r\n", " \n\t"]:
+                tail = "d e" + ("]" if prev.startswith("[") else "")
+                src, clean = prev + sep + dg + tail, prev + sep + tail
+                for kind in ("lex", "compile"):
+                    lines.append(case_line(kind, src))
+                    lines.append(case_line(kind, clean))
+                    meta.append((dg, kind, src, src.count("\n")))
+    buf = []
+    got = ctx.impl(lines, stall=15, capture_stdout=buf)
+    silent(ctx, lines, buf, "digits at the start of a line")
+    for i, (dg, kind, src, line) in enumerate(meta):
+        g, gc = got[2 * i].split("\t"), got[2 * i + 1].split("\t")
+        ctx.count("digit_line_start", src)
+        log = split_log(vlib.dec_text(g[1])) if len(g) > 1 else []
+        m = ERR_CH.match(log[0]) if len(log) == 1 else None
+        if len(g) < 2 or g[0] != gc[0] or not m or int(m.group(1)) != line or m.group(2) != dg:
+            ctx.oracle_fail("a digit at the start of a line after a length-taking command: the clean text's bytes and one [ERROR](%d) entry naming it expected (%s)" % (line, kind),
+                            lines[2 * i], "%s | %s" % (g[0][-60:], "\n".join(log)[:300]), "%s | [ERROR](%d) Unknown Character: \"%s\" near ..." % (gc[0][-60:], line, dg),
+                            input_text=src)
     # (4) bounds under stress
     stress = ["c" + "!" * 200 + "d", "".join("PRINT(%d)\n" % i for i in range(150)), "!" * 40 + "".join("PRINT(%d)\n" % i for i in range(150)),
               "".join("PRINT({%s})\n" % ("x" * 100) for _ in range(150)), "".join("Foo%d;\n" % i for i in range(150)),
